@@ -545,7 +545,7 @@ func (cm *CMap) Lookup(charCode uint32) string {
 // LookupString decodes a string of character codes to Unicode
 func (cm *CMap) LookupString(data []byte) string {
 	if cm == nil {
-		return string(data)
+		return strings.ToValidUTF8(string(data), "\uFFFD")
 	}
 
 	// Determine the effective byte width to use
